@@ -617,10 +617,14 @@ func (e *explorer) describe(r *sched.Result) string {
 			b.WriteString("; ")
 		}
 		fmt.Fprintf(&b, "T%d(%s) runs %d yields from %s", s["thread"], s["op"], s["yields"], s["first_site"])
-		if i+1 < len(segs) {
+		resumes := false
+		for _, later := range segs[i+1:] {
+			resumes = resumes || later["thread"] == s["thread"]
+		}
+		if resumes {
 			fmt.Fprintf(&b, " and is switched out before the statement at %s", s["last_site"])
 		} else {
-			fmt.Fprintf(&b, " to %s", s["last_site"])
+			fmt.Fprintf(&b, " to its end (last yield %s)", s["last_site"])
 		}
 		if i >= 7 {
 			b.WriteString("; ...")
@@ -925,8 +929,6 @@ func replay(u unit) (*result, bool) {
 	res := &result{Unit: u, Outcomes: map[string]int{}, Info: map[string]int{}}
 	switch {
 	case len(u.Seq) > 0:
-		u2 := u
-		u2.Schemas, u2.Ops, u2.MaxLen = []string{u.Schema}, nil, 0
 		// run exactly the sequence
 		sc := loadSchema(u.Schema)
 		setMapIter(1)
